@@ -144,6 +144,9 @@ static void hygiene() {
 static void run() {
     auto &a = vp::args();
     size_t maxsize = a.thorough() ? 5 : 4;
+#ifdef VP_LIGHT
+    maxsize = a.thorough() ? 4 : 3;   // additional build configurations: one size less (the main target keeps the full scope)
+#endif
     g_maxdepth = a.thorough() ? 5 : 4;
     vp::stats().rule = vp::fmt("enum: every op sequence of length <= %zu over add/consume/consume_at_most (operand 0..size+1; consume/at-most also with lengths at the top of size_t), rewind, reset, clear, repeat, query, refused set-up calls on the buffer in use (5 kinds of invalid arguments), adds whose source lies in the buffer's own memory "
                                "from every valid (size<=%zu, used, offset) initial state; every set/use/space argument combination; every API function called with side-effecting argument expressions (evaluated exactly once); buffers with 2^32-1 .. 2^32+3 unread octets (address space only)",
